@@ -252,6 +252,8 @@ func typeDefinitionSerializer(t dsl.TypeDefinition, contextNamespace string) str
 	}
 }
 
+// namedType is the alias whose own type t is, if any: a union that is directly the type of an
+// alias is generated under the alias' name. It does not apply to types nested inside t.
 func typeSerializer(t dsl.Type, contextNamespace string, namedType *dsl.NamedType) string {
 	switch t := t.(type) {
 	case nil:
@@ -261,10 +263,10 @@ func typeSerializer(t dsl.Type, contextNamespace string, namedType *dsl.NamedTyp
 	case *dsl.GeneralizedType:
 		getScalarSerializer := func() string {
 			if t.Cases.IsSingle() {
-				return typeSerializer(t.Cases[0].Type, contextNamespace, namedType)
+				return typeSerializer(t.Cases[0].Type, contextNamespace, nil)
 			}
 			if t.Cases.IsOptional() {
-				return fmt.Sprintf("_binary.OptionalSerializer(%s)", typeSerializer(t.Cases[1].Type, contextNamespace, namedType))
+				return fmt.Sprintf("_binary.OptionalSerializer(%s)", typeSerializer(t.Cases[1].Type, contextNamespace, nil))
 			}
 
 			unionClassName, typeParameters := common.UnionClassName(t)
@@ -286,7 +288,7 @@ func typeSerializer(t dsl.Type, contextNamespace string, namedType *dsl.NamedTyp
 				if c.Type == nil {
 					options[i] = "None"
 				} else {
-					options[i] = fmt.Sprintf("(%s.%s, %s)", classSyntax, formatting.ToPascalCase(c.Tag), typeSerializer(c.Type, contextNamespace, namedType))
+					options[i] = fmt.Sprintf("(%s.%s, %s)", classSyntax, formatting.ToPascalCase(c.Tag), typeSerializer(c.Type, contextNamespace, nil))
 				}
 			}
 
@@ -321,7 +323,7 @@ func typeSerializer(t dsl.Type, contextNamespace string, namedType *dsl.NamedTyp
 			return fmt.Sprintf("_binary.DynamicNDArraySerializer(%s)", getScalarSerializer())
 
 		case *dsl.Map:
-			keySerializer := typeSerializer(td.KeyType, contextNamespace, namedType)
+			keySerializer := typeSerializer(td.KeyType, contextNamespace, nil)
 			valueSerializer := typeSerializer(t.ToScalar(), contextNamespace, namedType)
 
 			return fmt.Sprintf("_binary.MapSerializer(%s, %s)", keySerializer, valueSerializer)
